@@ -741,6 +741,32 @@ theorem sop_coordinate_types (ct : Int) (built : List (Option Int)) :
     | none => rfl
     | some t => simpa using h t hb
 
+omit [DecidableEq α] in
+/-- **a parsed group handed to the SOP class constructor** (regenerated second check `Gen.sopKnownTypeCheck`, /repo fix): it is
+accepted iff the coordinate type it learned from the instance it was read with — if any — is the new instance's, and a stored
+common z goes with 3D only.  In particular every group read through an instance of type `t` is refused by an instance of another
+type, and (with `history_independent`) is read back unchanged from an instance that accepts it.  A group parsed on its own
+without a common z knows nothing and passes: the residue of the open finding C18-wrong-coordinate-type.  (Stream `sopParsed`,
+malformed class `sop-parsed-type-mismatch`.) -/
+theorem sop_parsed_groups (ct : Int) (gs : List (Group α)) :
+    (sopAcceptsParsed ct gs = true ↔
+      ∀ g ∈ gs, (g.known = none ∨ g.known = some ct) ∧ (g.enc.commonZ.isSome = true → ct = 3)) ∧
+    (∀ (t : Int) (g : Group α), t ≠ ct → sopAcceptsParsed ct [parseVia t g] = false) ∧
+    (∀ g : Group α, g.enc.commonZ = none → sopAcceptsParsed ct [parse { g with known := none }] = true) := by
+  refine ⟨?_, ?_, ?_⟩
+  · simp only [sopAcceptsParsed, List.all_eq_true]
+    exact ⟨fun h g hg => (sopKnownTypeCheck_ok_iff ct g.known _).mp (h g hg),
+      fun h g hg => (sopKnownTypeCheck_ok_iff ct g.known _).mpr (h g hg)⟩
+  · intro t g ht
+    simp [sopAcceptsParsed, parseVia, sopHandsDownCoordinateType, sopKnownTypeCheck_spec, ht]
+  · intro g hz
+    simp [sopAcceptsParsed, parse, sopKnownTypeCheck_spec, hz]
+
+example : sopAcceptsParsed 3 [parseVia 2 ({ gtype := "POINT", enc := exPointsEnc, cache := none } : Group Int)] = false ∧
+    sopAcceptsParsed 2 [parseVia 2 ({ gtype := "POINT", enc := exPointsEnc, cache := none } : Group Int)] = true ∧
+    sopAcceptsParsed 2 [parse ({ gtype := "POINT", enc := { exPointsEnc with commonZ := some 9 }, cache := none } : Group Int)] = false := by
+  decide
+
 example : sopAcceptsTypes 2 [some 2, none, some 2] = true ∧ sopAcceptsTypes 2 [some 2, some 3] = false ∧
     sopAcceptsTypes 3 [none, some 2] = false := by decide
 
